@@ -928,6 +928,81 @@ fn run_start(g: &mut SplitMix64, thorough: bool) {
     }
 }
 
+// ------------------------------------------------------------------------------------------
+// F20 witness: with a symmetry-breaking term the cluster gate is closed and no other move turns a
+// constant single-site operator off-diagonal. Fixed systems and RNG seeds (no --seed / --tier).
+// ------------------------------------------------------------------------------------------
+
+const NONERGODIC_SEEDS: [u64; 5] = [0xF20_0001, 0xF20_0002, 0xF20_0003, 0xF20_0004, 0xF20_0005];
+const NONERGODIC_STEPS: usize = 500;
+
+fn nonergodic_case(name: &str, nvars: usize, calls: &[Call]) {
+    let (nseeds, nsteps) = (NONERGODIC_SEEDS.len(), NONERGODIC_STEPS);
+    let input = format!("nonergodic {} {} {} {}", name, show_calls(calls), nseeds, nsteps);
+    let beta = 1.0;
+    // (gate, loop, max off-diagonal single-variable ops, sum of final n, off-diagonal multi-variable ops seen)
+    let r = catch(|| {
+        let (mut gate, mut lp) = (false, false);
+        let (mut max_od, mut total_ops, mut multi_od) = (0usize, 0usize, 0usize);
+        for seed in NONERGODIC_SEEDS {
+            let state: Vec<bool> = (0..nvars).map(|v| (seed >> v) & 1 == 1).collect();
+            let mut q = QS::new_with_state(nvars, SplitMix64::new(seed), state, true);
+            for c in calls {
+                apply_call(&mut q, c).unwrap();
+            }
+            q.set_do_loop_updates(true);
+            gate = q.should_do_cluster_update();
+            lp = q.should_do_loop_update();
+            for _ in 0..nsteps {
+                q.timestep(beta);
+                let m = q.get_manager_ref();
+                let mut od = 0;
+                for p in 0..m.get_cutoff() {
+                    if let Some(op) = m.get_pth(p) {
+                        if op.get_inputs() != op.get_outputs() {
+                            if op.get_vars().len() == 1 {
+                                od += 1;
+                            } else {
+                                multi_od += 1;
+                            }
+                        }
+                    }
+                }
+                max_od = max_od.max(od);
+            }
+            total_ops += q.get_manager_ref().get_n();
+        }
+        (gate, lp, max_od, total_ops, multi_od)
+    });
+    stat("nonergodic_system", 1);
+    match r {
+        Err(p) => emit(true, &input, "P", Some(Err(format!("sampler panicked: {}", p)))),
+        Ok((gate, lp, max_od, total_ops, multi_od)) => {
+            stat(&format!("nonergodic_{}_multi_site_offdiag_seen", name), multi_od);
+            let oracle = if total_ops == 0 {
+                Err("vacuous: no operators sampled".to_string())
+            } else if max_od == 0 {
+                Err(format!(
+                    "[F20: no off-diagonal single-site operator in {} steps although Gamma > 0] system {} gate={} ops_seen={}",
+                    nseeds * nsteps, name, gate as u8, total_ops
+                ))
+            } else {
+                Ok(())
+            };
+            emit(true, &input, &format!("gate={} loop={} od={}", gate as u8, lp as u8, max_od), Some(oracle));
+        }
+    }
+}
+
+fn run_nonergodic() {
+    let (g, h) = (1.0, 1.0);
+    let field = |v: usize| Call { variant: 0, mat: vec![g; 4], vars: vec![v] };
+    let bias = Call { variant: 2, mat: vec![0.0, 2.0 * h], vars: vec![0] };
+    nonergodic_case("1spin", 1, &[field(0), bias.clone()]);
+    let xc = Call { variant: 0, mat: exchange(0.0, 0.0, 0.5, 0.5, 0.0), vars: vec![0, 1] };
+    nonergodic_case("2spin", 2, &[field(0), field(1), bias, xc]);
+}
+
 fn main() {
     quiet_panics();
     let a = args();
@@ -944,5 +1019,8 @@ fn main() {
     }
     if all || a.mode == "start" {
         run_start(&mut g, a.thorough);
+    }
+    if all || a.mode == "nonergodic" {
+        run_nonergodic();
     }
 }
